@@ -230,7 +230,7 @@ def main():
             def fails(c, i=i):
                 iss, _ = evaluate(prop, [c], [d for d in drivers if d[0] == i["driver"]])
                 return any(x["kind"] == "monitor" and x["monitor"] == i["monitor"] for x in iss)
-            small = shrink(prop, i["script"], fails, i.get("frame"))
+            small = i["script"] if i.get("noshrink") else shrink(prop, i["script"], fails, i.get("frame"))
             iss2, _ = evaluate(prop, [small], [d for d in drivers if d[0] == i["driver"]])
             i2 = next((x for x in iss2 if x["kind"] == "monitor"), i)
             violations.append((write_replay(pid, i2), ""))
